@@ -40,7 +40,8 @@ LEVEL_TEXT = ('Lean theorems, for every lattice given as data (face supports as 
 LEVEL_NOTE = ('trusted: Lean kernel + standard axioms; correspondence harness; hand-written Lean transcription of '
               'the two automata and of the four 3-D lattices (compared with the implementation on every run: '
               'coordinates, stabilizer supports, types, z_indices, even x even and odd x even RotatedToric3DCode '
-              'sizes); signs are modelled as 0/1 values; the numpy generator behind get_default_direction is an '
+              'sizes; the RotatedToric3DCode record is moreover proved equal, for every size, to the hand-written '
+              'lattice model of C01 / C17: rotated_toric3D_lattice_is_the_C01_model); signs are modelled as 0/1 values; the numpy generator behind get_default_direction is an '
               'input stream; `code.id == RotatedToric3DCode` is the Boolean field rotSeam of the lattice record. '
               'The seam repair of RotatedSweepDecoder3D is pending as a commit of the library (known_findings: '
               'fixed PENDING); the former finding D10 is kept as a regression corpus of the oracle that must pass.')
@@ -52,6 +53,7 @@ TRUSTED = ['numpy Generator.choice behind get_default_direction is modelled as a
 ASSUMPTIONS = ['stabilizer and qubit coordinates of a lattice are pairwise distinct (checked on every compared '
                'lattice; hypothesis `Nodup` of the theorems)',
                'sizes inside the supported families of DESIGN section 4']
+PROPERTY_MODULES = ['PanqecVerif.Properties.C10', 'PanqecVerif.Properties.C10RotatedToric3DModel']
 ANCHOR_FILES = ['panqec/decoders/sweepmatch/_sweep_decoder_3d.py',
                 'panqec/decoders/sweepmatch/_rotated_sweep_decoder.py',
                 'panqec/codes/base/_stabilizer_code.py',
